@@ -41,6 +41,8 @@ type driver struct {
 	raceStats   map[string]any
 	spsaWorkers int
 	forceGMP1   bool
+	gridSeen    map[int]bool
+	gridTotal   int
 }
 
 func envInt(name string, def int) int {
@@ -56,7 +58,7 @@ func driverMain(args []string) int {
 		return 2
 	}
 	self, _ := os.Executable()
-	d := &driver{self: self, verifDir: os.Getenv("VERIF_DIR"), workers: envInt("VERIF_WORKERS", runtime.NumCPU())}
+	d := &driver{gridSeen: map[int]bool{}, self: self, verifDir: os.Getenv("VERIF_DIR"), workers: envInt("VERIF_WORKERS", runtime.NumCPU())}
 	if d.verifDir == "" {
 		d.verifDir = "/verif"
 	}
@@ -495,6 +497,12 @@ func (d *driver) check(prop, tier string) int {
 		}
 		for _, x := range s.Sigs {
 			sigs[x] = struct{}{}
+		}
+		for _, k := range s.GridSlices {
+			d.gridSeen[k] = true
+		}
+		if s.GridTotal > 0 {
+			d.gridTotal = s.GridTotal
 		}
 		if len(agg.Samples) < 3 {
 			agg.Samples = append(agg.Samples, s.Samples...)
